@@ -24,7 +24,7 @@ type Mutated struct {
 var DefectClasses = []string{
 	"substitute", "transpose", "count-delete", "count-insert", "count-any", "foreign-word", "case",
 	"affix", "junk-token", "separator", "checksum-only", "last-word", "none", "lead-zero-wrongsum",
-	"empty-token", "drop-word-keep-separator", "strip-marks", "add-mark", "invisible-affix", "count-wrap", "hash-lookalike", "letter-affix",
+	"empty-token", "drop-word-keep-separator", "strip-marks", "add-mark", "invisible-affix", "count-wrap", "hash-lookalike", "letter-affix", "giant-token",
 }
 
 func join(l ref.Lang, idx []int, sep string) string {
@@ -258,6 +258,24 @@ func Defect() *rapid.Generator[Mutated] {
 				words[p] += letter + letter
 			}
 			m.Text, m.Desc = strings.Join(words, " "), fmt.Sprintf("letter damage at the end of word %d", p)
+		case "giant-token":
+			// one token with no separator in it whose length sits on a buffer limit (bufio's 4 KiB
+			// reader buffer, bufio.Scanner's 64 KiB token limit): behind, in front of, or in place
+			// of a word of a valid sentence
+			size := rapid.SampledFrom([]int{4095, 4096, 4097, 65535, 65536, 65537, 70000, 131072}).Draw(t, "size")
+			unit := rapid.SampledFrom([]string{"x", "x", words[0], "\u00e9", "\uff41"}).Draw(t, "unit")
+			tok := strings.Repeat(unit, size/len(unit)+1)[:size]
+			tok = strings.ToValidUTF8(tok, "x")
+			switch rapid.IntRange(0, 3).Draw(t, "where") {
+			case 0, 1:
+				m.Text, m.Desc = strings.Join(words, " ")+" "+tok, fmt.Sprintf("a %d-byte token behind a valid sentence", len(tok))
+			case 2:
+				m.Text, m.Desc = tok+" "+strings.Join(words, " "), fmt.Sprintf("a %d-byte token in front of a valid sentence", len(tok))
+			default:
+				p := rapid.IntRange(0, n-1).Draw(t, "pos")
+				words[p] = tok
+				m.Text, m.Desc = strings.Join(words, " "), fmt.Sprintf("word %d replaced by a %d-byte token", p, len(tok))
+			}
 		case "lead-zero-wrongsum":
 			// sentences whose entropy starts with zero bytes and whose checksum is the one of
 			// the entropy with its leading zero bytes dropped (what a big-integer
